@@ -283,9 +283,12 @@ package configmigrate
 //@   loop 2 invariant ("schema_version" in diskConf) && diskConf["schema_version"] == int(29)
 //@   loop 3 invariant ("schema_version" in diskConf) && diskConf["schema_version"] == int(29)
 
+// lastSchema: the schema version of the document most recently validated against a target.
+//@ ghost var lastSchema int
 //@ func validateVersion(current uint, target uint) (err error)
 //@   property C13
-//@   modifies nothing
+//@   ghost at return: lastSchema = current
+//@   modifies lastSchema
 //@   ensures (err == nil) == (current <= target && target <= 29)
 
 // Every step writes into the top-level map, so it must exist when the steps run: a document that is a bare YAML null
@@ -302,6 +305,7 @@ package configmigrate
 //@   modifies *
 //@   ensures error-leaves-unchanged: err != nil ==> newBody == body && !upgraded
 //@   ensures current-file-untouched: !upgraded ==> newBody == body
+//@   ensures current-file-not-upgraded: err == nil && lastSchema == target ==> !upgraded
 
 // replaceDot rewrites elements of the nested 'ignored' array only; every entry of the top-level map is kept.
 //@ func replaceDot(diskConf yobj, key string) (err error)
